@@ -20,10 +20,12 @@ def run(ctx):
     ctx.build()
     nvec = words_selftest(ctx, widths=(32,))
     runs = []
-    cfgs = ["MC_WinEval_quick", "MC_WinEval_quick4", "MC_WinEval_quickp"] if tier == "quick" else ["MC_WinEval_thorough"]
+    cfgs = ["MC_WinEval_quick", "MC_WinEval_quick4", "MC_WinEval_quickp", "MC_WinEval_quicka"] if tier == "quick" else ["MC_WinEval_thorough"]
     reps = []
     for cfg in cfgs:
-        r = ctx.tlc("MC_WinEval", cfg, coverage="separate", required_actions=EVAL_ACTIONS, timeout=6000)
+        # the arithmetic configuration (operators and literals only, programs of up to five tokens) has no dereference or variable tokens
+        need = [a for a in EVAL_ACTIONS if a not in ("StepDeref", "StepUndef", "StepVar")] if cfg == "MC_WinEval_quicka" else EVAL_ACTIONS
+        r = ctx.tlc("MC_WinEval", cfg, coverage="separate", required_actions=need, timeout=6000)
         if r.violated:
             raise core.ToolFailure("design-level invariant %s of WinEval.tla is violated in the model" % r.violated)
         runs.append((cfg, r))
